@@ -76,6 +76,22 @@ def handleDescent : Handler := fun toks =>
         some (showInts (r.1.toList.flatMap (fun r => r.toList.map (·.idx))) ++ " | " ++
               showFs (r.1.toList.flatMap (fun r => r.toList.map (·.prio))) ++ " | " ++
               toString r.2.s0.toInt ++ " " ++ toString r.2.s1.toInt ++ " " ++ toString r.2.s2.toInt)
+  -- initidx n k w | dist | index rows (width w)            initalize_heap_from_graph_indices
+  | [["initidx", n, k, w], dist, rows] =>
+    let n' := pNat n
+    if dist.length ≠ n' * n' || !allInts dist then some "bad-op" else
+    match parseRows (pNat w) rows with
+    | none => some "bad-op"
+    | some idx =>
+      let tab := (dist.map pF).toArray
+      some (showGraph (initFromIndices (mkGraph finf n' (pNat k)) idx (distTable n' tab)))
+  -- initnbr n k w | index rows | distance rows (bits)        init_from_neighbor_graph (flag 0, no skipping)
+  | [["initnbr", n, k, w], rows, drows] =>
+    match parseRows (pNat w) rows, parseRows (pNat w) drows with
+    | some idx, some ds =>
+      some (showGraph (initFromNeighborGraph (mkGraph finf (pNat n) (pNat k)) idx
+        (ds.map (fun r => r.map (fun b => Float32.ofBits (UInt32.ofNat b.toNat))))))
+    | _, _ => some "bad-op"
   | _ => none
 
 end Pynn.Drv
